@@ -29,6 +29,12 @@ def explore(res, rng, n, exhaustive=None):
         cases.append((h, s))
     if exhaustive:
         cases += [(h, 0) for h in core.small_histories(*exhaustive)]
+    # decimal grids (0.1, 0.01): equal nominal ranges are different binary64 numbers there, which is what the
+    # rounding of aggregated ranges to globalConfig.atol digits exists for; predicates only (see cyc.correspondence)
+    for _ in range(n // 3):
+        h, _s = core.gen_history(rng, maxlen=20, closed=(rng.random() < 0.4))
+        if max(abs(v) for v in h) < 4096:
+            cases.append((h, rng.choice([-1, -1, -2, -3])))
     for h, s in cases:
         cyc.hist_stats(res, h)
     runs = cyc.correspondence(res, cyc.NAMES, cases, pred)
@@ -65,7 +71,7 @@ def malformed(res):
 
 def run(tier, seed):
     res = core.Result(PID, tier, seed)
-    res.rule = ('random tie-rich histories (40% closed) x seven counters x both output modes; non-trivial = at least one '
+    res.rule = ('random tie-rich histories (40% closed; dyadic grids compared exactly with the model, decimal grids 10^-1..10^-3 through the predicates only) x seven counters x both output modes; non-trivial = at least one '
                 'interior reversal; distinct by (counter, value tuple)')
     core.prove(res, PID, MODULES, clean=(tier == 'thorough'))
     rng = random.Random(seed)
